@@ -175,6 +175,23 @@ func condFamilies() []Scenario {
 	st = append(st, Step{Op: "events", Kind: "perform", Conf: 1, OnlyNew: true})
 	st = append(st, condCycle([]int{0, 1, 2, 3, 4, 5, 6}, "mutate", []int{5, 6, 7}, liveBound, nil)...)
 	ss = append(ss, Scenario{Family: "cond-minimal-members", N: 7, F: 2, Byz: []int{5, 6}, Steps: st})
+	// recovery path: neighbouring honest oracles each propose a different missed log in the same round (same position of
+	// their proposal lists); both are coordinated, checked by everyone and agreed, and the rounds after that still work
+	for _, byz := range []string{"honest", "craft"} {
+		st = []Step{{Op: "recov", Nodes: []int{0}, Logs: []int{501}}, {Op: "recov", Nodes: []int{1}, Logs: []int{502}},
+			{Op: "recov", Nodes: []int{2}, Logs: []int{503, 501}}}
+		st = append(st, Step{Op: "expect", Kind: "recov", Logs: []int{501, 502, 503}, Conf: liveBound + 1})
+		for i := 0; i <= liveBound; i++ {
+			st = append(st, Step{Op: "round", Nodes: all4, Byz: byz})
+		}
+		st = append(st, Step{Op: "events", Kind: "perform", Conf: 1, OnlyNew: true})
+		st = append(st, Step{Op: "recov", Nodes: []int{1}, Logs: []int{504}}, Step{Op: "recov", Nodes: []int{2}, Logs: []int{505}})
+		st = append(st, Step{Op: "expect", Kind: "recov", Logs: []int{504, 505}, Conf: liveBound + 1})
+		for i := 0; i <= liveBound; i++ {
+			st = append(st, Step{Op: "round", Nodes: all4, Byz: byz})
+		}
+		ss = append(ss, Scenario{Family: "recovery-proposals-from-neighbouring-oracles-" + byz, N: 4, F: 1, Byz: []int{3}, Steps: st})
+	}
 	return ss
 }
 
